@@ -44,7 +44,16 @@ func c44LinesHaveNoNewline(c *eng.Ctx) {
 			if sl != nil && sl.Low == nil {
 				if idx, ok := sl.High.(*ssa.Call); ok && eng.CalleeName(idx) == "bytes.IndexByte" && idx.Call.Args[0] == sl.X && constIs(idx.Call.Args[1], '\n') {
 					for _, a := range eng.Guards(ci) {
-						if b, ok := a.V.(*ssa.BinOp); ok && b.X == ssa.Value(idx) && constIs(b.Y, -1) && !a.Pos {
+						b, ok := a.V.(*ssa.BinOp)
+						if !ok || b.X != ssa.Value(idx) {
+							continue
+						}
+						// «a newline was found»: idx != -1, written in any of its forms
+						switch {
+						case b.Op == token.EQL && constIs(b.Y, -1) && !a.Pos,
+							b.Op == token.NEQ && constIs(b.Y, -1) && a.Pos,
+							b.Op == token.LSS && constIs(b.Y, 0) && !a.Pos,
+							b.Op == token.GEQ && constIs(b.Y, 0) && a.Pos:
 							okArg = true
 						}
 					}
